@@ -198,9 +198,12 @@ def m01e(res, mod, tier):
 def main(tier):
     res = Result('C01', 'other')
     res.engines = ['M (MIR symbolic execution with ParseState contracts)']
+    res.level = 'other'
     mod = Module(common.mir_dump('tc'))
     n1 = m01b(res, mod, tier)
     n2 = m01e(res, mod, tier)
+    from kani import runner
+    runner.run_for(res, 'C01', tier)        # K01a (parse_number small inputs) and K01c = the progress lemma of the ParseState primitives
     res.bounds = {'parse_number': 'quick: free ASCII <= 12 chars + families 0x+18 alnum, 21 decimal digits, 0+23 octal digits; thorough: free ASCII <= 24',
                   'parse_until_tag_end': '<= 3 (thorough 4) Unicode scalar values', 'unwinding': 'input length + 3, unwinding assertion on'}
     res.assumptions = ['ParseState primitives behave as the cursor contracts of mirsym/ps_env.py (established for the compiled code on <= 4-5 bytes by the Kani harnesses of C16)',
